@@ -1106,6 +1106,16 @@ class HybridSim(ObjSim):
         "C19": ["_skip_in_to_dict / _store_in_to_dict customisation hooks"],
     }
 
+    needs_scratch = True  # (the c_restart profile compiles)
+
+    def run(self, prop, profile, rng=None, replay=None, tier="quick"):
+        if profile == "c_restart":
+            # C20 with compiled code on both sides of the restart (sim/capisim.py)
+            from .capisim import CApiSim
+
+            return CApiSim().run(prop, profile, rng=rng, replay=replay, tier=tier)
+        return super().run(prop, profile, rng=rng, replay=replay, tier=tier)
+
     def gen_world(self, rng, profile, tier):
         if not profile.startswith("hybrid"):
             return objsim.gen_world(rng, profile, tier)  # plain ObjSim world (json / restart profiles)
